@@ -71,8 +71,21 @@ Init == l = 1 /\ J = NoJ /\ ms = "none"
 IsEvent(name) == l <= Len(Trace) /\ Trace[l].ev = name /\ l' = l + 1
 
 \* the raw store dump after a step: exactly the accepted message, unchanged
+\* the sibling items of a publish batch are stored with their own payload, headers and trace - or not at all
+SibOK(e, stored) ==
+  IF stored
+  THEN /\ Len(e.sibs) = Len(J.sibs)
+       /\ \A i \in DOMAIN J.sibs : \E k \in DOMAIN e.sibs :
+             /\ e.sibs[k].id = J.sibs[i].id
+             /\ e.sibs[k].pl.d = J.sibs[i].pl.d /\ e.sibs[k].pl.n = J.sibs[i].pl.n
+             /\ Pairs(e.sibs[k].h) = Pairs(J.sibs[i].h)
+             /\ Pairs(e.sibs[k].t) = Pairs(J.sibs[i].t)
+  ELSE e.sibs = <<>>
+
 DumpOK(e, stored) ==
   /\ Chk("dump_count", Len(e.dump) = (IF stored THEN 1 ELSE 0) /\ e.other = 0)
+  /\ Chk("dump_trace", ~Ingress => \A i \in DOMAIN e.dump : Pairs(e.dump[i].t) = J.mt)
+  /\ Chk("sibling", SibOK(e, stored))
   /\ Chk("dump_payload", \A i \in DOMAIN e.dump : SamePL(e.dump[i].pl))
   /\ Chk("dump_sensitive", Ingress => \A i \in DOMAIN e.dump : NoSens(e.dump[i].h) /\ e.dump[i].leak = <<>>)
   /\ Chk("dump_headers", \A i \in DOMAIN e.dump : Pairs(e.dump[i].h) = J.exp /\ NoDup(e.dump[i].h))
@@ -93,7 +106,7 @@ TraceStart ==
   /\ LET e == Trace[l]
      IN /\ Chk("emptystore", e.dump = <<>> /\ e.other = 0)
         /\ J' = [none |-> FALSE, c |-> e.c, pl |-> e.pl, exp |-> ExpConc(e), size |-> ExpSize(e),
-                 accept |-> Accept(e), toobig |-> TooBig(e)]
+                 accept |-> Accept(e), toobig |-> TooBig(e), mt |-> Pairs(e.mt), sibs |-> e.sibs]
         /\ ms' = "new"
 
 TraceSubmit ==
@@ -105,6 +118,8 @@ TraceSubmit ==
         /\ Chk("refused_not_stored", ~ok => e.dump = <<>> /\ e.other = 0)
         /\ Chk("stored_count", Len(e.dump) = (IF J.accept THEN 1 ELSE 0) /\ e.other = 0)
         /\ Chk("stored_payload", \A i \in DOMAIN e.dump : SamePL(e.dump[i].pl))
+        /\ Chk("stored_trace", ~Ingress => \A i \in DOMAIN e.dump : Pairs(e.dump[i].t) = J.mt)
+        /\ Chk("stored_sibling", SibOK(e, J.accept /\ ok))
         /\ Chk("stored_sensitive", Ingress => \A i \in DOMAIN e.dump : NoSens(e.dump[i].h) /\ e.dump[i].leak = <<>>)
         /\ Chk("stored_headers", \A i \in DOMAIN e.dump : Pairs(e.dump[i].h) = J.exp /\ NoDup(e.dump[i].h))
         /\ ms' = IF ok THEN "queued" ELSE "refused"
@@ -155,6 +170,27 @@ TraceLeaseOp ==
                  ELSE ms
   /\ UNCHANGED J
 
+\* extending a lease touches nothing else
+TraceExtend ==
+  /\ IsEvent("Extend")
+  /\ LET e == Trace[l]
+     IN /\ Chk("leaseop", ms = "leased" => e.r.ok)
+        /\ DumpOK(e, Kept)
+  /\ UNCHANGED <<J, ms>>
+
+\* operator: cancel (queued / leased / dead), resume (canceled), requeue (dead / canceled), by id or by filter
+TraceOperator ==
+  /\ (IsEvent("Cancel") \/ IsEvent("Resume") \/ IsEvent("RequeueMsg"))
+  /\ LET e   == Trace[l]
+         pre == CASE e.ev = "Cancel"     -> ms \in {"queued", "leased", "dead"}
+                  [] e.ev = "Resume"     -> ms = "canceled"
+                  [] e.ev = "RequeueMsg" -> ms \in {"dead", "canceled"}
+         to  == IF e.ev = "Cancel" THEN "canceled" ELSE "queued"
+     IN /\ Chk("operator", pre => e.r.n = 1)
+        /\ DumpOK(e, Kept)
+        /\ ms' = IF e.r.n >= 1 THEN to ELSE ms
+  /\ UNCHANGED J
+
 TraceExpire ==
   /\ IsEvent("Expire")
   /\ DumpOK(Trace[l], Kept)
@@ -188,7 +224,7 @@ TraceScan ==
 
 Next ==
   \/ TraceStart \/ TraceSubmit \/ TraceDeq \/ TraceList \/ TracePush \/ TraceLeaseOp \/ TraceExpire
-  \/ TraceRequeue \/ TraceRestart \/ TraceStoreAlias \/ TraceScan
+  \/ TraceRequeue \/ TraceRestart \/ TraceStoreAlias \/ TraceScan \/ TraceExtend \/ TraceOperator
 
 Spec == Init /\ [][Next]_vars
 
